@@ -1,6 +1,6 @@
 """C07 — failures are contained: dependents are cancelled, others still run."""
 from .. import common
-from . import _sched
+from . import _sched, c07x_phases
 
 PROP = "C07"
 MODULES = ["XpmVerif.Properties.C07"]
@@ -20,6 +20,9 @@ def correspond(ctx):
     # upstream job cannot cancel it (real dry-run submits, shared with C04's second sentence)
     from . import c04
     c04._deps_part(ctx, ctx.scale(60, 600))
+    # the failure that cancels a job may have happened in an earlier experiment of the same program (task objects re-used from
+    # one `with experiment(...)` block to the next): real experiments, every sentence of the property per experiment left
+    c07x_phases.part(ctx, ctx.scale(240, 4000))
 
 
 def search(ctx):
@@ -31,4 +34,13 @@ def run_witness(ctx, finding):
 
 
 def replay(ctx, obj):
-    return _sched.replay_events(ctx, PROP, obj)
+    rc = 0
+    mx = [f for f in obj.get("failures", []) if f["case"].get("engine") == "phases"]
+    for f in mx:
+        fails = c07x_phases.replay(ctx, f["case"])
+        print("replay:", fails[:3] if fails else "no failure on this tree")
+        if fails:
+            rc = 1
+            print(f"VIOLATION property={PROP} replay=(replayed)")
+    rest = dict(obj, failures=[f for f in obj.get("failures", []) if f not in mx])
+    return max(rc, _sched.replay_events(ctx, PROP, rest))
